@@ -108,6 +108,8 @@ def build(case: dict[str, Any], d: Path, job: dict[str, Any]) -> Any:
         inj = {"point": c["point"], "how": c["how"], "n": c["n"], "where": c["where"]}
         if c["how"] == "CtrlC":
             inj["sync"] = case["sync"]
+        if case.get("flavour"):
+            inj["flavour"] = case["flavour"]
     kw: dict[str, Any] = dict(
         artifacts_base=(d / "art") if c["art"] else None,
         db=db,
